@@ -1112,3 +1112,44 @@ def strict_no_ignorable_before_keys(c):
 
 
 recv_packet.always.append(('strict-kex:no-ignorable-message-before-the-first-keys', strict_no_ignorable_before_keys))
+
+
+# ------------------------------------------------------------------ strict kex is OFFERED: what our KEXINIT advertises
+# Prefix truncation must be detectable whenever both peers support strict kex, so this side has to offer it in EVERY
+# KEXINIT it sends, whatever its own state (_strict_kex is the RESULT of the negotiation, it cannot be its condition):
+# the pseudo-algorithms appended to our kex list contain the strict-kex marker of OUR role.  That the list sent is
+# expand_kex_algs(..) ++ exactly this list is C03's `send_kexinit_c03` (registered under C01 below, same object).
+def own_marker_offered(c):
+    isc = z3.is_true(z3.simplify(c.old('_is_client')))
+    marker = bytes_const(b'kex-strict-c-v00@openssh.com' if isc else b'kex-strict-s-v00@openssh.com')
+    other = bytes_const(b'kex-strict-s-v00@openssh.com' if isc else b'kex-strict-c-v00@openssh.com')
+    r = c.result_v
+    if isinstance(r, VRef):                  # a list object built step by step lives on the heap
+        r = c.new_state.heap[r.addr]
+    if isinstance(r, VList):
+        items = [to_z3(x, 'bytes') for x in r.items]
+        return z3.And(z3.Or([x == marker for x in items] + [z3.BoolVal(False)]),
+                      z3.And([x != other for x in items] + [z3.BoolVal(True)]))
+    from specs.seqs import member_z
+    rz = to_z3(r, 'seq[bytes]')
+    return z3.And(member_z(rz, marker), z3.Not(member_z(rz, other)))
+
+
+get_extra_kex_algs = Spec(
+    'C01', 'connection', 'SSHConnection._get_extra_kex_algs', self_class='SSHConnection',
+    classes=CONN_CLASSES, stubs=dict(ROLE_STUBS),
+    cases=[('client', {'_is_client': True}), ('server', {'_is_client': False})],
+    ensures=[('our-kexinit-always-offers-the-strict-kex-marker-of-our-role-and-never-the-peers', own_marker_offered)],
+    returns='seq[bytes]', modifies=[], raises={})
+
+
+def _register_send_kexinit_under_c01():
+    import copy
+    from . import c03 as _c03
+    cp = copy.copy(_c03.send_kexinit_c03)
+    cp.prop = 'C01'
+    Spec.registry.append(cp)
+    return cp
+
+
+send_kexinit_c01 = _register_send_kexinit_under_c01()
